@@ -497,9 +497,14 @@ func (*Ufs) Read(req *SrvReq) {
 			}
 		}
 
+		if tc.Offset > uint64(len(fid.dirents)) {
+			// beyond the end of the directory: nothing to return
+			SetRreadCount(rc, 0)
+			req.Respond()
+			return
+		}
+
 		switch {
-		case tc.Offset > uint64(len(fid.dirents)):
-			count = 0
 		case len(fid.dirents[tc.Offset:]) > int(tc.Count):
 			count = int(tc.Count)
 		default:
@@ -516,6 +521,11 @@ func (*Ufs) Read(req *SrvReq) {
 						count = 0
 					}
 				}
+			}
+			if count < 0 {
+				// the offset is not at the start of an entry
+				req.RespondError(Ebadoffset)
+				return
 			}
 			if count == 0 && int(tc.Offset) < len(fid.dirents) && len(fid.dirents) > 0 {
 				req.RespondError(&Error{"too small read size for dir entry", EINVAL})
